@@ -1094,9 +1094,11 @@ def make_syntax_oracle(pipe: pl.Pipeline) -> Any:
 	from rogw.tranp.syntax.ast.parser import SyntaxParser
 	lark_parser = pipe.resolve(SyntaxParser).dirty_get_origin()
 
-	def unparsable(data: str | bytes) -> bool:
+	def unparsable(mode: str, data: str | bytes) -> bool:
+		# the text the pipeline really handed over: an in-memory source is a str (the harness decodes mutated bytes with
+		# errors='replace'), an on-disk source is the file's bytes, which tranp decodes strictly
 		try:
-			text = data.decode('utf-8') if isinstance(data, bytes) else data
+			text = data if isinstance(data, str) else (data.decode('utf-8', errors='replace') if mode == 'in-memory' else data.decode('utf-8'))
 		except UnicodeDecodeError:
 			return True
 		if text == '':
@@ -1108,7 +1110,7 @@ def make_syntax_oracle(pipe: pl.Pipeline) -> Any:
 			return True
 
 	def syntax_oracle(mode: str, data: str | bytes, o: pl.Outcome) -> None:
-		if o.kind == 'error' and not o.cls.endswith('Errors.Syntax') and unparsable(data):
+		if o.kind == 'error' and not o.cls.endswith('Errors.Syntax') and unparsable(mode, data):
 			o.message = f'text rejected by the grammar came out as {o.cls}, not Errors.Syntax: {o.message}'[:300]
 			o.key = f"unparsable-not-syntax:{o.cls.split('.')[-1]}[{mode}]"
 			o.kind = 'escape'
